@@ -301,8 +301,43 @@ static int cb_ok(void) {
     if (g_ambient) aws_raise_error(AWS_ERROR_INVALID_INDEX);
     return AWS_OP_SUCCESS;
 }
+/* "nested parse" runs: every callback first parses another, unrelated document completely (with a callback of its own that
+ * descends and reads names and attributes) and only then looks at its own node.  Two parsers that are alive at the same time
+ * are two objects: what one of them reports does not depend on the other (added after two seeded changes that moved
+ * per-parser scratch space to file scope / into thread-local storage filled when a node is loaded) */
+static int g_nested;
+static int g_nested_depth;
+static int nested_cb(struct aws_xml_node *node, void *ud) {
+    unsigned *sum = (unsigned *)ud;
+    struct aws_byte_cursor nm = aws_xml_node_get_name(node);
+    *sum += (unsigned)nm.len;
+    size_t na = aws_xml_node_get_num_attributes(node);
+    for (size_t i = 0; i < na; ++i) {
+        struct aws_xml_attribute a = aws_xml_node_get_attribute(node, i);
+        *sum += (unsigned)(a.name.len + a.value.len);
+    }
+    return aws_xml_node_traverse(node, nested_cb, ud);
+}
+static void nested_parse(void) {
+    static const char other[] = "<ab x=\"1\" yy=\"22\"><a z=\"333\">b</a><b>a</b></ab>";
+    if (!g_nested || g_nested_depth) return;
+    ++g_nested_depth;
+    int saved = aws_last_error();
+    unsigned sum = 0;
+    struct aws_xml_parser_options o;
+    memset(&o, 0, sizeof(o));
+    o.doc = aws_byte_cursor_from_array(other, sizeof(other) - 1);
+    o.on_root_encountered = nested_cb;
+    o.user_data = &sum;
+    if (aws_xml_parse(aws_default_allocator(), &o) != AWS_OP_SUCCESS || sum != 2 + 1 + 1 + 2 + 2 + 1 + 1 + 3 + 1)
+        bee_fail("nested-parse", "the unrelated document parsed from inside a callback was not reported correctly (checksum %u)", sum);
+    if (saved) aws_raise_error(saved);
+    else aws_reset_error();
+    --g_nested_depth;
+}
 static int on_node(struct aws_xml_node *node, void *ud) {
     struct cb_ctx *c = (struct cb_ctx *)ud;
+    nested_parse();
     int k = L_n;
     if (k >= MAXLOG) {
         ++L_overflow;
@@ -956,6 +991,16 @@ static void full3_ambient_eval(uint64_t idx, void *ctx) {
     full3_eval(idx, ctx);
     g_ambient = 0;
 }
+static void full3_nested_eval(uint64_t idx, void *ctx) {
+    g_nested = 1;
+    full3_eval(idx, ctx);
+    g_nested = 0;
+}
+static void limits_nested_eval(uint64_t idx, void *ctx) {
+    g_nested = 1;
+    limits_eval(idx, ctx);
+    g_nested = 0;
+}
 static void limits_ambient_eval(uint64_t idx, void *ctx) {
     g_ambient = 1;
     limits_eval(idx, ctx);
@@ -985,6 +1030,8 @@ int main(int argc, char **argv) {
     bee_register("preshape", preshape_total, preshape_eval, 20);
     bee_register("pat", pat_total, pat_eval, 20);
     bee_register("limits", limits_total, limits_eval, 20);
+    bee_register("full3-nested-parse", full3_total, full3_nested_eval, 30);
+    bee_register("limits-nested-parse", limits_total, limits_nested_eval, 30);
     bee_register("full3-ambient-error", full3_total, full3_ambient_eval, 20);
     bee_register("limits-ambient-error", limits_total, limits_ambient_eval, 20);
     return bee_main(argc, argv);
